@@ -391,6 +391,93 @@ theorem vm_offOf_le (S : Segmenter) (line : Text) (k : Nat) : offOf (S.seg line)
     rw [← blen_append, ← List.flatten_append, List.take_append_drop, h]
   unfold offOf; omega
 
+/-! #### the landing rule of the repaired code (D36): first cluster boundary at or right of the column -/
+
+/-- first `k` in `[j, j + f)` with `P k`, else `j + f` -/
+def vm_landFrom (P : Nat → Bool) : Nat → Nat → Nat
+  | 0, k => k
+  | f + 1, k => if P k then k else vm_landFrom P f (k + 1)
+
+/-- index of the cluster boundary the model lands on: the first `k < |gs|` whose prefix of `k` clusters
+    is at least `w` columns wide, else `|gs|` (the line end) -/
+def vm_landK (U : UData) (gs : List Text) (w : Nat) : Nat :=
+  vm_landFrom (fun k => decide (U.width (gs.take k).flatten ≥ w)) gs.length 0
+
+theorem vm_landFrom_bounds (P : Nat → Bool) (f j : Nat) : j ≤ vm_landFrom P f j ∧ vm_landFrom P f j ≤ j + f := by
+  induction f generalizing j with
+  | zero => simp [vm_landFrom]
+  | succ f ih =>
+    unfold vm_landFrom
+    split
+    · omega
+    · have := ih (j + 1); omega
+
+theorem vm_landK_le (U : UData) (gs : List Text) (w : Nat) : vm_landK U gs w ≤ gs.length := by
+  have := (vm_landFrom_bounds (fun k => decide (U.width (gs.take k).flatten ≥ w)) gs.length 0).2
+  unfold vm_landK; omega
+
+theorem vm_find_range' (P : Nat → Bool) (m j : Nat) :
+    ((List.range' j m).find? P).getD (j + m) = vm_landFrom P m j := by
+  induction m generalizing j with
+  | zero => simp [vm_landFrom]
+  | succ m ih =>
+    rw [List.range'_succ, List.find?_cons]
+    unfold vm_landFrom
+    cases hP : P j with
+    | true => simp
+    | false =>
+      simp only [Bool.false_eq_true, if_false]
+      have := ih (j + 1)
+      rw [show j + 1 + m = j + (m + 1) by omega] at this
+      exact this
+
+theorem vm_offOf_succ (gs : List Text) (j : Nat) (hj : j < gs.length) :
+    offOf gs (j + 1) = offOf gs j + blen gs[j] := by
+  unfold offOf
+  rw [List.take_succ_eq_append_getElem hj, List.flatten_append, blen_append]
+  simp
+
+theorem vm_colFind_go (U : UData) (line : Text) (w : Nat) (all : List Text) (hl : line = all.flatten) :
+    ∀ (f j : Nat), j + f = all.length →
+      LB.colFind U line w (gidxGo (offOf all j) (all.drop j)) =
+        .ok (if vm_landFrom (fun k => decide (U.width (all.take k).flatten ≥ w)) f j < all.length
+             then some (offOf all (vm_landFrom (fun k => decide (U.width (all.take k).flatten ≥ w)) f j))
+             else none) := by
+  intro f
+  induction f with
+  | zero =>
+    intro j hj
+    have : all.drop j = [] := List.drop_eq_nil_of_le (by omega)
+    rw [this]
+    have hj' : ¬ j < all.length := by omega
+    simp [gidxGo, LB.colFind, vm_landFrom, pure, Except.pure, hj']
+  | succ f ih =>
+    intro j hj
+    have hjl : j < all.length := by omega
+    rw [List.drop_eq_getElem_cons hjl]
+    simp only [gidxGo]
+    have hpre : sliceTo line (offOf all j) = .ok (all.take j).flatten := by
+      have e : line = (all.take j).flatten ++ (all.drop j).flatten := by
+        rw [← List.flatten_append, List.take_append_drop, hl]
+      conv => lhs; rw [e]
+      exact sliceTo_mid _ _
+    unfold LB.colFind vm_landFrom
+    simp only [hpre, bind, Except.bind]
+    by_cases hc : U.width (all.take j).flatten ≥ w
+    · simp [hc, hjl, pure, Except.pure]
+    · have := ih (j + 1) (by omega)
+      rw [vm_offOf_succ all j hjl] at this
+      simp only [hc, decide_false, Bool.false_eq_true, if_false]
+      exact this
+
+/-- `colFind` on the cluster list of a line: the first cluster boundary (before the end) at or right of `w` -/
+theorem vm_colFind (S : Segmenter) (U : UData) (line : Text) (w : Nat) :
+    LB.colFind U line w (gidx S line) =
+      .ok (if vm_landK U (S.seg line) w < (S.seg line).length then some (offOf (S.seg line) (vm_landK U (S.seg line) w))
+           else none) := by
+  have := vm_colFind_go U line w (S.seg line) (S.flatten_eq line).symm (S.seg line).length 0 (by omega)
+  simpa [gidx, offOf, vm_landK] using this
+
 /-- `move_to_line_up` evaluated on a well-formed state -/
 theorem vm_moveToLineUp_eval (S : Segmenter) (U : UData) (n pc : Nat) (lb : LB) (h : WF lb) (hn : n ≠ 0) :
     (lineStartOf lb.buf lb.pos = 0 ∧ LB.moveToLineUp S U n pc lb = .ok (false, lb, [])) ∨
@@ -399,7 +486,7 @@ theorem vm_moveToLineUp_eval (S : Segmenter) (U : UData) (n pc : Nat) (lb : LB) 
       slice lb.buf (lineStartOf lb.buf lb.pos) lb.pos = .ok cur ∧
       LB.moveToLineUp S U n pc lb = .ok (true,
         { lb with pos := (ds + offOf (S.seg line)
-            (min (U.width cur - (if ds = 0 then pc else 0)) (S.seg line).length)) }, [])) := by
+            (vm_landK U (S.seg line) (U.width cur - (if ds = 0 then pc else 0)))) }, [])) := by
   obtain ⟨x, s, hb, hp⟩ := h.split
   obtain ⟨X, v, m, R, hx, hs, hX, hR, hv, hm, hL, h1, h2⟩ := vm_line_at hb
   rw [← hp] at h1 h2
@@ -438,33 +525,32 @@ theorem vm_moveToLineUp_eval (S : Segmenter) (U : UData) (n pc : Nat) (lb : LB) 
     have hfin : ∀ ds0, lineStartOf lb.buf (blen w) = ds0 →
         (match rfindChar '\n' w with | some k => k + 1 | none => 0) = ds0 := by
       intro ds0 h0; rw [← h0, hls]
-    cases hnth : (gidx S line)[U.width v - (if ds = 0 then pc else 0)]? with
-    | none =>
-      have hlen := vm_gidx_none hnth
-      have hpos : ds + offOf (S.seg line) (min (U.width v - (if ds = 0 then pc else 0)) (S.seg line).length)
+    have hcf := vm_colFind S U line (U.width v - (if ds = 0 then pc else 0))
+    have hkle := vm_landK_le U (S.seg line) (U.width v - (if ds = 0 then pc else 0))
+    by_cases hlt : vm_landK U (S.seg line) (U.width v - (if ds = 0 then pc else 0)) < (S.seg line).length
+    · rw [if_pos hlt] at hcf
+      unfold LB.moveToLineUp
+      cases hf2 : rfindChar '\n' w with
+      | none =>
+        rw [hf2] at hls; rw [hls] at hlu
+        simp [LM.bind_apply, LM.get, LM.lift, hst, hf, hcur, hpre2, hf2, hlu, hline, hcf, LM.setPos]
+      | some k =>
+        rw [hf2] at hls; rw [hls] at hlu
+        simp [LM.bind_apply, LM.get, LM.lift, hst, hf, hcur, hpre2, hf2, hlu, hline, hcf, LM.setPos]
+    · rw [if_neg hlt] at hcf
+      have hkeq : vm_landK U (S.seg line) (U.width v - (if ds = 0 then pc else 0)) = (S.seg line).length := by omega
+      have hpos : ds + offOf (S.seg line) (vm_landK U (S.seg line) (U.width v - (if ds = 0 then pc else 0)))
           = lineEndOf lb.buf ds := by
-        rw [Nat.min_eq_right hlen, vm_offOf_length, hLd.le]
+        rw [hkeq, vm_offOf_length, hLd.le]
       rw [hpos]
       unfold LB.moveToLineUp
       cases hf2 : rfindChar '\n' w with
       | none =>
         rw [hf2] at hls; rw [hls] at hlu
-        simp [LM.bind_apply, LM.get, LM.lift, hst, hf, hcur, hpre2, hf2, hlu, hline, hnth, LM.setPos]
+        simp [LM.bind_apply, LM.get, LM.lift, hst, hf, hcur, hpre2, hf2, hlu, hline, hcf, LM.setPos]
       | some k =>
         rw [hf2] at hls; rw [hls] at hlu
-        simp [LM.bind_apply, LM.get, LM.lift, hst, hf, hcur, hpre2, hf2, hlu, hline, hnth, LM.setPos]
-    | some ig =>
-      obtain ⟨idx, g⟩ := ig
-      obtain ⟨hlt, hidx⟩ := vm_gidx_some hnth
-      rw [Nat.min_eq_left (Nat.le_of_lt hlt), ← hidx]
-      unfold LB.moveToLineUp
-      cases hf2 : rfindChar '\n' w with
-      | none =>
-        rw [hf2] at hls; rw [hls] at hlu
-        simp [LM.bind_apply, LM.get, LM.lift, hst, hf, hcur, hpre2, hf2, hlu, hline, hnth, LM.setPos]
-      | some k =>
-        rw [hf2] at hls; rw [hls] at hlu
-        simp [LM.bind_apply, LM.get, LM.lift, hst, hf, hcur, hpre2, hf2, hlu, hline, hnth, LM.setPos]
+        simp [LM.bind_apply, LM.get, LM.lift, hst, hf, hcur, hpre2, hf2, hlu, hline, hcf, LM.setPos]
 
 
 /-- `move_to_line_down` evaluated on a well-formed state -/
@@ -475,7 +561,7 @@ theorem vm_moveToLineDown_eval (S : Segmenter) (U : UData) (n pc : Nat) (lb : LB
       slice lb.buf (lineStartOf lb.buf lb.pos) lb.pos = .ok cur ∧
       LB.moveToLineDown S U n pc lb = .ok (true,
         { lb with pos := (ds + offOf (S.seg line)
-            (min (U.width cur + (if lineStartOf lb.buf lb.pos = 0 then pc else 0)) (S.seg line).length)) },
+            (vm_landK U (S.seg line) (U.width cur + (if lineStartOf lb.buf lb.pos = 0 then pc else 0)))) },
         [])) := by
   obtain ⟨x, s, hb, hp⟩ := h.split
   obtain ⟨X, v, m, R, hx, hs, hX, hR, hv, hm, hL, h1, h2⟩ := vm_line_at hb
@@ -537,23 +623,22 @@ theorem vm_moveToLineDown_eval (S : Segmenter) (U : UData) (n pc : Nat) (lb : LB
     have hlen : lb.len = blen lb.buf := rfl
     refine ⟨hlt, ds, de, line, v, rfl, by omega, hLd, hcur, ?_⟩
     generalize hcol : U.width v + (if lineStartOf lb.buf lb.pos = 0 then pc else 0) = col
-    cases hnth : (gidx S line)[col]? with
-    | none =>
-      have hlen' := vm_gidx_none hnth
-      rw [Nat.min_eq_right hlen', vm_offOf_length, ← hLd.le]
+    have hcf := vm_colFind S U line col
+    have hkle := vm_landK_le U (S.seg line) col
+    by_cases hlt' : vm_landK U (S.seg line) col < (S.seg line).length
+    · rw [if_pos hlt'] at hcf
       unfold LB.moveToLineDown
       rcases hxc with ⟨hfx, hls0⟩ | ⟨k, hfx, hls0⟩ <;> rcases hqc with ⟨hfq, hle0⟩ | ⟨t, hfq, hle0⟩ <;>
         (rw [hls0] at hcur hcol; rw [hle0] at hld; simp at hcol; subst hcol
-         simp [LM.bind_apply, LM.get, LM.lift, hst, hsf, hf, hfx, hcur, hs2, hlen, hfq, hld, hline, hnth,
+         simp [LM.bind_apply, LM.get, LM.lift, hst, hsf, hf, hfx, hcur, hs2, hlen, hfq, hld, hline, hcf,
            LM.setPos])
-    | some ig =>
-      obtain ⟨idx, g⟩ := ig
-      obtain ⟨hlt', hidx⟩ := vm_gidx_some hnth
-      rw [Nat.min_eq_left (Nat.le_of_lt hlt'), ← hidx]
+    · rw [if_neg hlt'] at hcf
+      have hkeq : vm_landK U (S.seg line) col = (S.seg line).length := by omega
+      rw [hkeq, vm_offOf_length, ← hLd.le]
       unfold LB.moveToLineDown
       rcases hxc with ⟨hfx, hls0⟩ | ⟨k, hfx, hls0⟩ <;> rcases hqc with ⟨hfq, hle0⟩ | ⟨t, hfq, hle0⟩ <;>
         (rw [hls0] at hcur hcol; rw [hle0] at hld; simp at hcol; subst hcol
-         simp [LM.bind_apply, LM.get, LM.lift, hst, hsf, hf, hfx, hcur, hs2, hlen, hfq, hld, hline, hnth,
+         simp [LM.bind_apply, LM.get, LM.lift, hst, hsf, hf, hfx, hcur, hs2, hlen, hfq, hld, hline, hcf,
            LM.setPos])
 
 
@@ -567,63 +652,69 @@ theorem vm_Line.slice_in {buf : Text} {ds de : Nat} {line a b : Text} (h : vm_Li
   rw [hb]
   simpa using this
 
-/-- display column of the `k`-th cluster boundary of a line whose first `k` clusters are `k` columns wide -/
+/-- display column of the `k`-th cluster boundary of a line: the width of the first `k` clusters, plus the
+    prompt on the first line -/
 theorem vm_displayCol_in (S : Segmenter) (U : UData) {buf : Text} {ds de : Nat} {line : Text} (pc k : Nat)
-    (hL : vm_Line buf ds de line) (hw : U.width ((S.seg line).take k).flatten = k) :
-    displayCol U buf (ds + offOf (S.seg line) k) pc = k + (if ds = 0 then pc else 0) := by
+    (hL : vm_Line buf ds de line) :
+    displayCol U buf (ds + offOf (S.seg line) k) pc =
+      U.width ((S.seg line).take k).flatten + (if ds = 0 then pc else 0) := by
   have hl : line = ((S.seg line).take k).flatten ++ ((S.seg line).drop k).flatten := by
     rw [← List.flatten_append, List.take_append_drop, S.flatten_eq]
   have h1 := hL.start_in hl
   have h2 := hL.slice_in hl
   unfold displayCol offOf
-  simp only [h1, h2, hw]
+  simp only [h1, h2]
 
-theorem vm_mem_bounds (ds : Nat) (gs : List Text) (k : Nat) (hk : k ≤ gs.length) :
-    (bounds ds gs).contains (ds + offOf gs k) = true := by
-  rw [List.contains_iff_mem]
-  unfold bounds
-  exact List.mem_map.mpr ⟨k, List.mem_range.mpr (by omega), rfl⟩
+/-- the declarative landing position is the model's: cluster boundary number `vm_landK` -/
+theorem vm_target (S : Segmenter) (U : UData) {buf : Text} {ds de : Nat} {line : Text} (pc c : Nat)
+    (hL : vm_Line buf ds de line) :
+    verticalTarget S U buf ds de line pc c =
+      ds + offOf (S.seg line) (vm_landK U (S.seg line) (c - (if ds = 0 then pc else 0))) := by
+  generalize hoff : (if ds = 0 then pc else 0) = off
+  generalize hgs : S.seg line = gs
+  have hcol : ∀ k, displayCol U buf (ds + offOf gs k) pc = U.width (gs.take k).flatten + off := by
+    intro k; rw [← hgs, ← hoff]; exact vm_displayCol_in S U pc k hL
+  have hde : ds + offOf gs gs.length = de := by rw [← hgs, vm_offOf_length, hL.le]
+  -- the predicate of the spec on boundary number `k` is the predicate of the model on `k`
+  have hPQ : ∀ k, decide (displayCol U buf (ds + offOf gs k) pc ≥ c) = decide (U.width (gs.take k).flatten ≥ c - off) := by
+    intro k; rw [hcol k]; apply decide_eq_decide.mpr; omega
+  unfold verticalTarget bounds
+  rw [hgs, List.range_succ, List.map_append, List.find?_append, List.find?_map]
+  have hcongr : (List.range gs.length).find? ((fun q => decide (displayCol U buf q pc ≥ c)) ∘ fun k => ds + offOf gs k) =
+      (List.range gs.length).find? (fun k => decide (U.width (gs.take k).flatten ≥ c - off)) := by
+    have : ((fun q => decide (displayCol U buf q pc ≥ c)) ∘ fun k => ds + offOf gs k) =
+        (fun k => decide (U.width (gs.take k).flatten ≥ c - off)) := funext hPQ
+    rw [this]
+  rw [hcongr]
+  have hr := vm_find_range' (fun k => decide (U.width (gs.take k).flatten ≥ c - off)) gs.length 0
+  rw [← List.range_eq_range', Nat.zero_add] at hr
+  cases hfind : (List.range gs.length).find? (fun k => decide (U.width (gs.take k).flatten ≥ c - off)) with
+  | some k =>
+    rw [hfind] at hr
+    simp only [Option.getD_some] at hr
+    simp only [Option.map, Option.or, Option.getD]
+    rw [hr]; rfl
+  | none =>
+    rw [hfind] at hr
+    simp only [Option.getD_none] at hr
+    have hk : vm_landK U gs (c - off) = gs.length := hr.symm
+    rw [hk, hde]
+    simp only [Option.map_none, Option.none_or, List.map_cons, List.map_nil, List.find?_cons, List.find?_nil]
+    rw [hde]
+    split <;> rfl
 
-/-- the landing rule "cluster index = column − offset, else the line end" satisfies the column check
-    when the clusters of the destination line are one column wide -/
+/-- the landing rule of the repaired code satisfies the column check -/
 theorem vm_check (S : Segmenter) (U : UData) (lb : LB) (n : Nat) (up : Bool) (pc ds de : Nat) (line : Text)
     (c k : Nat) (hn : n ≠ 0) (hvd : verticalDest lb.buf lb.pos n up = some (ds, de))
     (hL : vm_Line lb.buf ds de line)
-    (hw : ∀ j, j ≤ (S.seg line).length → U.width ((S.seg line).take j).flatten = j)
     (hc : displayCol U lb.buf lb.pos pc = c)
-    (hk : k = min (c - (if ds = 0 then pc else 0)) (S.seg line).length) :
+    (hk : k = vm_landK U (S.seg line) (c - (if ds = 0 then pc else 0))) :
     checkVerticalCol S U lb n up pc (ds + offOf (S.seg line) k) = none := by
-  have hk' : k ≤ (S.seg line).length := by rw [hk]; exact Nat.min_le_right _ _
-  have hp := vm_displayCol_in S U pc k hL (hw k hk')
-  have hde := vm_displayCol_in S U pc (S.seg line).length hL (hw _ (Nat.le_refl _))
-  have hds := vm_displayCol_in S U pc 0 hL (hw 0 (Nat.zero_le _))
-  have hdeq : ds + offOf (S.seg line) (S.seg line).length = de := by rw [vm_offOf_length, hL.le]
-  have hdsq : ds + offOf (S.seg line) 0 = ds := by simp [offOf]
-  rw [hdeq] at hde
-  rw [hdsq] at hds
-  have hmem := vm_mem_bounds ds (S.seg line) k hk'
   have hn' : (n == 0) = false := by simp [hn]
-  generalize hoff : (if ds = 0 then pc else 0) = off at *
-  have e1 : k + off = c ∨ (ds + offOf (S.seg line) k = de ∧ (S.seg line).length + off < c) ∨
-      (ds + offOf (S.seg line) k = ds ∧ off > c) := by
-    by_cases ha : c - off ≤ (S.seg line).length
-    · rw [Nat.min_eq_left ha] at hk
-      by_cases hb : off ≤ c
-      · left; omega
-      · right; right
-        have : k = 0 := by omega
-        subst this
-        exact ⟨hdsq, by omega⟩
-    · right; left
-      rw [Nat.min_eq_right (by omega)] at hk
-      subst hk
-      exact ⟨hdeq, by omega⟩
+  have ht := vm_target S U pc c hL
   unfold checkVerticalCol
-  simp only [hn', hvd, hL.slice, hmem, hc, hp, hde, hds, Bool.false_eq_true, if_false, Bool.not_true]
-  rcases e1 with e | ⟨e, e'⟩ | ⟨e, e'⟩
-  · simp [e]
-  · simp [e, e']
-  · simp [e, e']
+  simp only [hn', hvd, hL.slice, hc, ht, hk, Bool.false_eq_true, if_false]
+  simp
 
 end Rl
 
